@@ -88,7 +88,7 @@ DataOp(g, v) ==
 (* ----------------------------- next_id -------------------------------- *)
 FreeAbove(g) == {i \in IdsOf(g) : i >= g.nextv /\ i \notin g.present}
 NextIdOk(g) == FreeAbove(g) # {}
-NextIdOf(g) == CHOOSE i \in FreeAbove(g) : \A j \in FreeAbove(g) : i <= j
+NextIdOf(g) == LET S == FreeAbove(g) IN CHOOSE i \in S : \A j \in S : i <= j
 NextIdOp(g) == [g EXCEPT !.nextv = NextIdOf(g) + 1]
 
 (* ----------------------------- reads ---------------------------------- *)
